@@ -128,3 +128,6 @@ func VerifC10_LockedBatchCreateMatrix()  { VerifC07_LockedBatchCreateMatrix() }
 func VerifC04_RejectedRelSetRelations() { VerifC10_RelSetRelations() }
 func VerifC04_RejectedRelAdd()          { VerifC10_RelAdd() }
 func VerifC04_RejectedRelNew()          { VerifC10_RelNew() }
+
+// C08: creation events of every batch-creation path fire for the new rows only
+func VerifC08_BatchCreateMatrix() { VerifC09_BatchCreateMatrix() }
